@@ -36,6 +36,7 @@ class Profile:
         self.layouts = ('C',)
         self.specials = False
         self.casts = False
+        self.fractional_index = False   # float64 index values that float32 cannot represent (differential oracles only)
         self.any_casts = False          # casts whose result is not defined for every value (C19 only: no content oracle)
         self.meta_kinds = ()            # object kinds (besides origin/channel/frame) that may appear
         self.max_meta = 6
@@ -368,6 +369,8 @@ def draw_index_array(draw, profile, rows):
         vals = [start]
         for _ in range(rows - 1):
             vals.append(vals[-1] + draw(st.integers(1, 9)))
+    if profile.fractional_index and code == 'f8' and draw(st.booleans()):
+        vals = [v * 0.1 + 1e-9 * (i % 7) for i, v in enumerate(vals)]
     arr = np.array(vals).astype(bo + code)
     aj = {'dt': bo + code, 'shape': [rows], 'hex': arr.tobytes().hex()}
     if len(profile.layouts) > 1:
